@@ -466,6 +466,103 @@ func TestUnobservedSequences(t *testing.T) {
 	evid.Exhaustive(fmt.Sprintf("%d reduced operations, all sequences up to length %d, read back only at the end", len(ops), depth), n)
 }
 
+// TestManyKeys: the same invariants on points with 150 / 1500 keys (map growth, pooled index entries recycled in
+// bulk): random operations over the whole key range, then every key of the output is read back through Point.Get
+// and through a script.
+func TestManyKeys(t *testing.T) {
+	rk.Check(t, "manykeys", 9, evid.Scale(60, 600), func(t *rapid.T) {
+		nf := rapid.SampledFrom([]int{30, 100, 1000}).Draw(t, "nfields")
+		nt := nf / 2
+		fields, tags := map[string]any{}, map[string]string{}
+		vals := []any{int64(1), 2.5, "s", true, nil, ""}
+		for i := 0; i < nf; i++ {
+			fields[fmt.Sprintf("f%d", i)] = vals[i%len(vals)]
+		}
+		for i := 0; i < nt; i++ {
+			tags[fmt.Sprintf("t%d", i)] = fmt.Sprintf("tv%d", i)
+		}
+		p := impl.NewPoint("m", tags, fields)
+		key := func(l string) string {
+			switch rapid.IntRange(0, 3).Draw(t, l+"kind") {
+			case 0:
+				return fmt.Sprintf("f%d", rapid.IntRange(0, nf-1).Draw(t, l))
+			case 1:
+				return fmt.Sprintf("t%d", rapid.IntRange(0, nt-1).Draw(t, l))
+			case 2:
+				return fmt.Sprintf("n%d", rapid.IntRange(0, 20).Draw(t, l))
+			}
+			return []string{"f0", "t0", "n0", "f1"}[rapid.IntRange(0, 3).Draw(t, l)]
+		}
+		var path []string
+		nops := rapid.IntRange(10, 200).Draw(t, "nops")
+		for i := 0; i < nops; i++ {
+			var txt string
+			switch rapid.IntRange(0, 7).Draw(t, "op") {
+			case 0, 1:
+				txt = fmt.Sprintf("rename(%s, %s)", key("new"), key("old"))
+			case 2:
+				txt = fmt.Sprintf("drop_key(%s)", key("k"))
+			case 3:
+				txt = fmt.Sprintf("set_tag(%s)", key("k"))
+			case 4:
+				txt = fmt.Sprintf("add_key(%s, %s)", key("k"), valText(addVals[rapid.IntRange(0, len(addVals)-1).Draw(t, "v")]))
+			case 5:
+				txt = fmt.Sprintf("cast(%s, %q)", key("k"), []string{"int", "str", "bool", "float"}[rapid.IntRange(0, 3).Draw(t, "ty")])
+			case 6:
+				txt = fmt.Sprintf("add_key(%s, cfg.host)", key("k"))
+			default:
+				txt = fmt.Sprintf("set_measurement(%s, true)", key("k"))
+			}
+			path = append(path, txt)
+			if _, crash := impl.RunV1(load(t, txt), p, nil); crash != nil {
+				rk.Fail(t, "manykeys", replay{Ops: path}, "operation panicked: %s\noperations: %s", crash.Value, strings.Join(path, " ; "))
+			}
+		}
+		// every key of the output: not both kinds, right value types, Point.Get agrees
+		for k, v := range p.Tags {
+			if _, both := p.Fields[k]; both {
+				rk.Fail(t, "manykeys", replay{Ops: path}, "key %q is both a tag and a field\noperations: %s", k, strings.Join(path, " ; "))
+			}
+			gv, gt, gerr := p.Get(k)
+			if gerr != nil || gt != ast.String || gv != any(v) {
+				rk.Fail(t, "manykeys", replay{Ops: path}, "Point.Get(%q) = %s/%s/%v, the output point holds tag %q\noperations: %s", k, probe.Render(gv), gt, gerr, v, strings.Join(path, " ; "))
+			}
+		}
+		var names []string
+		for k, v := range p.Fields {
+			switch v.(type) {
+			case nil, bool, int64, float64, string:
+			default:
+				rk.Fail(t, "manykeys", replay{Ops: path}, "field %q holds a %T", k, v)
+			}
+			gv, gt, gerr := p.Get(k)
+			if gerr != nil || probe.Render(gv) != probe.Render(v) || gt != dtypeOf(v) {
+				rk.Fail(t, "manykeys", replay{Ops: path}, "Point.Get(%q) = %s typed %s (err %v), the output point holds field %s\noperations: %s", k, probe.Render(gv), gt, gerr, probe.Render(v), strings.Join(path, " ; "))
+			}
+			names = append(names, k)
+		}
+		// a script reads a sample of the keys and drops them again
+		sort.Strings(names)
+		for i, k := range names {
+			if i%7 != 0 {
+				continue
+			}
+			sig := &probe.Sig{}
+			want := probe.Render(p.Fields[k])
+			if err, crash := impl.RunV1(load(t, fmt.Sprintf("probe(\"r\", %s)\ndrop_key(%s)", k, k)), p, sig); err != nil || crash != nil || len(sig.Trace) != 1 {
+				rk.Fail(t, "manykeys", replay{Ops: path}, "reading and dropping %q failed: %v %v", k, err, crash)
+			}
+			if got := sig.Trace[0].Vals[0]; got != want {
+				rk.Fail(t, "manykeys", replay{Ops: path}, "a script reads field %q as %s, the output point holds %s\noperations: %s", k, got, want, strings.Join(path, " ; "))
+			}
+			if _, still := p.Fields[k]; still {
+				rk.Fail(t, "manykeys", replay{Ops: path}, "drop_key(%s) left the field in the output\noperations: %s", k, strings.Join(path, " ; "))
+			}
+		}
+		evid.Case(fmt.Sprintf("manykeys/%d/%d/%s", nf, nops, path[0]), true, fmt.Sprintf("many-keys/%d", nf))
+	})
+}
+
 func TestRandomSequences(t *testing.T) {
 	ops := allOps()
 	rk.Check(t, "random", 1, evid.Scale(600, 6000), func(t *rapid.T) {
